@@ -1,6 +1,7 @@
 import Zc.Proofs.QueueRun
 import Zc.Proofs.Classify
 import Zc.Proofs.Response
+import Zc.Proofs.ResponseComplete
 /-! # C12 — reply timing: jitter, aggregation, one-second protection, truncated queries
 
 Numbers in the statements (20, 120, 500, 1000, 1020, 1200, 400) come from the English property;
@@ -116,6 +117,60 @@ theorem C12_one_timer {p : QP} (hp : p.ok) {c0 : Int} {evs : List QEv} {q' : Que
     obtain ⟨d, hd⟩ := hI.sk.nonempty_timer hne
     have := hI.sk.timer_le hd g.sk (List.mem_map_of_mem hg)
     exact ⟨d, hd, this.2, by simpa [Sk.deadline, Group.sk] using this.1⟩
+
+/-! ## "aggregated with other pending answers" -/
+
+/-- a later query whose jittered `send_after` is not after the last pending group's joins that group: no new group, no
+new timer, its answers leave with the answers that were already waiting -/
+theorem C12_aggregates_into_pending (p : QP) (q : Queue) (init : List Group) (last : Group) (hq : q.groups = init ++ [last])
+    (clock now draw : Int) (answers : Dict) (hle : now + (draw + p.addl) ≤ last.sa) :
+    q.add p clock now draw answers = { q with groups := init ++ [{ last with answers := last.answers.update answers }] } := by
+  rcases Queue.add_spec p q clock now draw answers with ⟨hnil, _⟩ | ⟨init', last', hq', _, heq⟩ | ⟨init', last', hq', hlt, _⟩
+  · rw [hq] at hnil; simp at hnil
+  · rw [hq] at hq'
+    obtain ⟨h1, h2⟩ := List.append_inj' hq' rfl
+    simp only [List.cons.injEq, and_true] at h2
+    subst h1; subst h2
+    exact heq
+  · rw [hq] at hq'
+    obtain ⟨_, h2⟩ := List.append_inj' hq' rfl
+    simp only [List.cons.injEq, and_true] at h2
+    subst h2
+    omega
+
+/-- when the timer fires and something is sent, **everything that is due** (`send_after ≤ now`) is in that one batch -/
+theorem C12_batch_takes_all_due {p : QP} {hist : List AddRec} {clock : Int} {q : Queue} (hI : QInv p hist clock q)
+    {now : Int} {b : Dict} (hb : (q.ready now).2 = some b) :
+    ∀ g ∈ q.groups, g.sa ≤ now → ∀ r ∈ g.answers.keys, r ∈ b.keys := by
+  intro g hg hdue r hr
+  rcases Queue.ready_spec q now with ⟨_, heq⟩ | ⟨_, _, _, _, heq⟩ | ⟨rest, batch, _, hp, heq⟩
+  · rw [heq] at hb; cases hb
+  · rw [heq] at hb; cases hb
+  · rw [heq] at hb
+    obtain ⟨popped, h1, _, h3, _, h5⟩ := popReady_spec now _ _ _ _ hp
+    have hbb : b = batch := by
+      simp only [readyResult] at hb
+      split at hb
+      · cases hb
+      · simpa using hb.symm
+    subst hbb
+    rw [h1] at hg
+    rcases List.mem_append.mp hg with hg | hg
+    · exact (h3 r).mpr (Or.inr ⟨g, hg, hr⟩)
+    · -- a group that stays queued has `send_after > now`: the head of the rest has, and the rest is sorted
+      exfalso
+      have hs := hI.sk.sorted
+      rw [h1, List.map_append] at hs
+      have hsr := (List.pairwise_append.mp hs).2.1
+      cases rest with
+      | nil => cases hg
+      | cons h0 rs =>
+        have h0lt := h5 h0 rfl
+        rcases List.mem_cons.mp hg with rfl | hg
+        · omega
+        · have := (List.pairwise_cons.mp hsr).1 g.sk (List.mem_map_of_mem hg)
+          simp only [Group.sk] at this
+          omega
 
 /-! ## C12_nodup — a batch never contains a record twice -/
 
@@ -234,16 +289,50 @@ theorem C12_one_sec_qu_refuted : ¬ C12_one_sec_qu_full := by
   have := h [(0, { created := 0, ttl := 3 })] 800 [(0, [])] 0 { created := 0, ttl := 3 } (by decide) (by decide) (by decide) (by decide)
   exact this (by decide)
 
-/-- Timing of the protected reply: a record classified at stamp `t` because of a sighting at
-`created ≤ t` goes out, from the protected queue, no earlier than one second after that sighting and
-no later than 1.2 s after the query was handled (`c`; `= t` for an ordinary query). -/
-theorem C12_one_sec_timing {c0 : Int} {evs : List QEv} {q' : Queue} {c' : Int} {outs : List (Int × Dict)}
+/-- Timing of the protected reply (`_partial`).  A batch of the protected queue is no earlier than one second after every
+sighting that **precedes the stamp of the `add`** (`created ≤ a.now`), and no later than 1.2 s after the query was handled.
+For an ordinary query the stamp is its arrival, and a sighting the classification can have seen is never later than that: the
+hypothesis is then always met.  For a reassembled truncated query the stamp is the arrival of the **first** packet while the
+classification (`C12_one_sec_qm`) looks at the age at the **last** packet's arrival: a sighting in between is classified
+"seen less than a second ago" and yet is *not* covered — see `C12_one_sec_timing_refuted`.
+Reading of the English clause adopted (notes/agents/C12.md, O1): a query has arrived when its last packet has; so the clause
+binds for such sightings and the implementation falsifies it (stage O: `C12:held-query-remulticast-within-1s`). -/
+theorem C12_one_sec_timing_partial {c0 : Int} {evs : List QEv} {q' : Queue} {c' : Int} {outs : List (Int × Dict)}
     (h : Run delayQP {} c0 evs q' c' outs) (created : Int) :
     ∀ o ∈ outs, ∀ r ∈ o.2.keys, ∃ a ∈ addsOf evs, r ∈ a.keys ∧
       (created ≤ a.now → created + 1000 ≤ o.1) ∧ o.1 ≤ a.clock + 1200 := by
   intro o ho r hr
   obtain ⟨a, ha, h1, _, h3, h4⟩ := C12_window_protected h o ho r hr
   exact ⟨a, ha, h1, fun hc => by omega, h4⟩
+
+/-- the full-strength statement: the protection holds for every sighting made before the `add` is *executed* (i.e. before the
+query — all its packets — has been handled), not only before its stamp -/
+def C12_one_sec_timing_full : Prop :=
+  ∀ (c0 : Int) (evs : List QEv) (q' : Queue) (c' : Int) (outs : List (Int × Dict)), Run delayQP {} c0 evs q' c' outs →
+    ∀ (created : Int), ∀ o ∈ outs, ∀ r ∈ o.2.keys, ∃ a ∈ addsOf evs, r ∈ a.keys ∧ (created ≤ a.clock → created + 1000 ≤ o.1)
+
+/-- a legal run of the protected queue: an ordinary query at 0 (record 1), then at loop time 450 the reply to a truncated
+query whose first packet arrived at 0 (record 2; stamp 0, draw 20 ⇒ merged into the pending group), sent together at 1020 -/
+theorem heldRun : Run delayQP {} 0 [.add 0 0 20 [(1, [])], .add 450 0 20 [(2, [])], .fire 1020] {} 1020 [(1020, [(1, []), (2, [])])] := by
+  refine Run.cons (e := .add 0 0 20 [(1, [])]) ?_ (Run.cons (e := .add 450 0 20 [(2, [])]) ?_ (Run.cons (e := .fire 1020) ?_ (Run.nil _ _)))
+  · refine ⟨by decide, by decide, by decide, by decide, ?_⟩
+    intro d hd; cases hd
+  · refine ⟨by decide, by decide, by decide, by decide, ?_⟩
+    intro d hd
+    have h2 : some (1020 : Int) = some d := hd
+    cases h2; decide
+  · exact ⟨by decide, by decide⟩
+
+/-- **refuted**: record 2 was seen multicast at 445 — five milliseconds before the truncated query was handled (450), during
+its hold — and is multicast again at 1020, 575 ms after that sighting -/
+theorem C12_one_sec_timing_refuted : ¬ C12_one_sec_timing_full := by
+  intro h
+  obtain ⟨a, ha, hr, hb⟩ := h _ _ _ _ _ heldRun 445 (1020, [(1, []), (2, [])]) (by simp) 2 (by decide)
+  simp only [addsOf, List.mem_cons, List.not_mem_nil, or_false] at ha
+  rcases ha with rfl | rfl
+  · simp [Dict.keys] at hr
+  · have := hb (by decide)
+    omega
 
 /-- "answered in the arrival block": whatever `async_response` put into `_mcast_now` (and `_ucast`)
 is sent by `handle_assembled_query` itself — in the block in which the query is handled — as one
@@ -255,11 +344,13 @@ theorem C12_immediate_block {h : Host} {clock : Int} {pkts : List Pkt} {addr por
     (qa.mcastNow.isEmpty = false → Out.ofMcast qa.mcastNow ∈ r.outs) ∧
     (∀ o ∈ r.outs, ∀ a b, o = Out.mcast a b → o = Out.ofMcast qa.mcastNow) ∧
     ∃ first, pkts.head? = some first ∧
-      (r.host.outQ = h.outQ ∨ ∃ d, 20 ≤ d ∧ d ≤ 120 ∧ r.host.outQ = h.outQ.add outQP clock first.now d qa.mcastAgg) ∧
-      (r.host.delayQ = h.delayQ ∨ ∃ d, 20 ≤ d ∧ d ≤ 120 ∧ r.host.delayQ = h.delayQ.add delayQP clock first.now d qa.mcastLast) := by
+      (qa.mcastAgg.isEmpty = true → r.host.outQ = h.outQ) ∧
+      (qa.mcastAgg.isEmpty = false → ∃ d, 20 ≤ d ∧ d ≤ 120 ∧ r.host.outQ = h.outQ.add outQP clock first.now d qa.mcastAgg) ∧
+      (qa.mcastLast.isEmpty = true → r.host.delayQ = h.delayQ) ∧
+      (qa.mcastLast.isEmpty = false → ∃ d, 20 ≤ d ∧ d ≤ 120 ∧ r.host.delayQ = h.delayQ.add delayQP clock first.now d qa.mcastLast) := by
   obtain ⟨first, hf, ho, _, hq1, hq2⟩ := assemble_spec hs hqa
   have e1 := drawLo_eq; have e2 := drawHi_eq
-  refine ⟨?_, ?_, first, hf, ?_, ?_⟩
+  refine ⟨?_, ?_, first, hf, hq1.1, ?_, hq2.1, ?_⟩
   · intro hne; rw [ho]; simp [immediateOuts, hne]
   · intro o hmem a b hob
     rw [ho] at hmem
@@ -271,12 +362,52 @@ theorem C12_immediate_block {h : Host} {clock : Int} {pkts : List Pkt} {addr por
     · split at hmem
       · cases hmem
       · simpa using hmem
-  · rcases hq1 with h1 | ⟨d, h1, h2, h3⟩
-    · exact Or.inl h1
-    · exact Or.inr ⟨d, by omega, by omega, h3⟩
-  · rcases hq2 with h1 | ⟨d, h1, h2, h3⟩
-    · exact Or.inl h1
-    · exact Or.inr ⟨d, by omega, by omega, h3⟩
+  · intro hne
+    obtain ⟨d, h1, h2, h3⟩ := hq1.2 hne
+    exact ⟨d, by omega, by omega, h3⟩
+  · intro hne
+    obtain ⟨d, h1, h2, h3⟩ := hq2.2 hne
+    exact ⟨d, by omega, by omega, h3⟩
+
+/-- **From classification to the wire (aggregation).**  If `async_response` classified `rid` as aggregate for the query
+handled at loop time `clock`, then `handle_assembled_query` *does* hand it to `out_queue` (one `add`, stamp = first
+packet, draw 20..120), and — the queue being in a reachable state and the block respecting the loop axioms (time does not
+run backwards, the stamp is not in the future, no due timer was skipped: what `Host.step` checks) — whatever happens
+afterwards `rid` is multicast at some `s ∈ [clock, clock + 500]` unless the run stops earlier.  With `C12_window_aggregate`
+(every batch of such a run lies in `[stamp + 20, clock + 500]` of an `add` of each of its records) this is the sentence
+"sent no earlier than 20 ms and no later than 500 ms after the query arrives, aggregated with other pending answers". -/
+theorem C12_aggregated_on_wire {h : Host} {clock : Int} {pkts : List Pkt} {addr port : Nat} {seen : SeenMap} {draws : List Int}
+    {r : StepOut} {rest : List Int} (hs : h.assemble clock pkts addr port seen draws = .ok (r, rest))
+    {qa : QA} (hqa : asyncResponse pkts (Gen.Reply.ucast_source port) seen = some qa) {rid : RecId} (hr : rid ∈ qa.mcastAgg.keys)
+    {c0 c1 : Int} {pre : List QEv} {outs1 : List (Int × Dict)} (hpre : Run outQP {} c0 pre h.outQ c1 outs1)
+    (hclock : c1 ≤ clock) (hstamp : ∀ first, pkts.head? = some first → first.now ≤ clock)
+    (hdue : ∀ d, h.outQ.timer = some d → clock ≤ d)
+    {post : List QEv} {q' : Queue} {c' : Int} {outs : List (Int × Dict)} (hpost : Run outQP r.host.outQ clock post q' c' outs) :
+    (∃ o ∈ outs, rid ∈ o.2.keys ∧ clock ≤ o.1 ∧ o.1 ≤ clock + 500) ∨ c' ≤ clock + 500 := by
+  obtain ⟨first, hf, _, _, hq1, _⟩ := assemble_spec hs hqa
+  obtain ⟨d, hd1, hd2, heq⟩ := hq1.2 (Dict.isEmpty_false_of_mem hr)
+  rw [heq] at hpost
+  have hrun : Run outQP h.outQ c1 (.add clock first.now d qa.mcastAgg :: post) q' c' ([] ++ outs) :=
+    Run.cons (e := .add clock first.now d qa.mcastAgg) ⟨hclock, hstamp first hf, hd1, hd2, hdue⟩ hpost
+  simpa using C12_on_wire_aggregate hpre hrun rid hr
+
+/-- **From classification to the wire (protected).**  Likewise for a record classified "seen in the last second": it is
+handed to `out_delay_queue` and is multicast at some `s ∈ [clock, clock + 1200]`; by `C12_window_protected` no batch of that
+queue carries it earlier than `stamp + 1020`. -/
+theorem C12_protected_on_wire {h : Host} {clock : Int} {pkts : List Pkt} {addr port : Nat} {seen : SeenMap} {draws : List Int}
+    {r : StepOut} {rest : List Int} (hs : h.assemble clock pkts addr port seen draws = .ok (r, rest))
+    {qa : QA} (hqa : asyncResponse pkts (Gen.Reply.ucast_source port) seen = some qa) {rid : RecId} (hr : rid ∈ qa.mcastLast.keys)
+    {c0 c1 : Int} {pre : List QEv} {outs1 : List (Int × Dict)} (hpre : Run delayQP {} c0 pre h.delayQ c1 outs1)
+    (hclock : c1 ≤ clock) (hstamp : ∀ first, pkts.head? = some first → first.now ≤ clock)
+    (hdue : ∀ d, h.delayQ.timer = some d → clock ≤ d)
+    {post : List QEv} {q' : Queue} {c' : Int} {outs : List (Int × Dict)} (hpost : Run delayQP r.host.delayQ clock post q' c' outs) :
+    (∃ o ∈ outs, rid ∈ o.2.keys ∧ clock ≤ o.1 ∧ o.1 ≤ clock + 1200) ∨ c' ≤ clock + 1200 := by
+  obtain ⟨first, hf, _, _, _, hq2⟩ := assemble_spec hs hqa
+  obtain ⟨d, hd1, hd2, heq⟩ := hq2.2 (Dict.isEmpty_false_of_mem hr)
+  rw [heq] at hpost
+  have hrun : Run delayQP h.delayQ c1 (.add clock first.now d qa.mcastLast :: post) q' c' ([] ++ outs) :=
+    Run.cons (e := .add clock first.now d qa.mcastLast) ⟨hclock, hstamp first hf, hd1, hd2, hdue⟩ hpost
+  simpa using C12_on_wire_protected hpre hrun rid hr
 
 /-! ## C12_tc — truncated queries -/
 
@@ -292,6 +423,28 @@ theorem C12_tc_hold (l : Listener) (t : Int) (addr port : Nat) (p : Pkt) {draws 
   have e1 := tcLo_eq; have e2 := tcHi_eq
   refine ⟨⟨_, Listener.defer_timer l t addr port p d, ?_, ?_⟩, fun a ha => Listener.defer_other l t addr port p d a ha⟩ <;>
     (simp only; omega)
+
+/-- a truncated packet is never answered in its own block: whatever `datagram_received` does with it (drops it as oversize /
+duplicate / already deferred, or defers it), it sends nothing -/
+theorem C12_tc_silent {h : Host} {t : Int} {addr port dataId size : Nat} {hasQu : Bool} {p : Pkt} {seen : SeenMap} {draws : List Int} {r : StepOut}
+    (hs : h.step (.rx t addr port dataId size hasQu (.query p) seen draws) = .ok r) (htc : p.truncated = true) : r.outs = [] := by
+  have hnt : Gen.Reply.l_not_truncated p.truncated = false := by rw [GenFacts.l_not_truncated, htc]; rfl
+  unfold Host.step at hs
+  simp only [Ev.time, hnt, Bool.false_eq_true, if_false] at hs
+  repeat' split at hs
+  all_goals first
+    | (cases hs; done)
+    | (cases hs; rfl)
+    | skip
+  cases hd : takeDraw tcLo tcHi draws with
+  | error e => rw [hd] at hs; cases hs
+  | ok v =>
+    rw [hd] at hs
+    simp only [bind, Except.bind, pure, Except.pure] at hs
+    split at hs
+    · cases hs
+    · cases hs; rfl
+
 
 /-- When the timer fires (or an untruncated packet of the same source arrives: `msg = some _`) **all**
 deferred packets of the address are answered by one `handle_assembled_query`, after which nothing is
@@ -320,6 +473,51 @@ theorem C12_tc_union {pkts : List Pkt} {us : Bool} {seen : SeenMap} {qa : QA}
     ∃ p ∈ pkts, ∃ it ∈ p.items, ∃ c ∈ it.cands, c.id = r ∧ suppresses (unionKnown pkts) c = false :=
   asyncResponse_sources h r hr
 
+/-- … and **every** question of **every** packet of the train is answered: each candidate answer that the union of the known
+answers does not suppress is in one of the four sets of the reply (unicast, at once, aggregated, protected) — the
+completeness half of "answered once using the union of all their known answers" -/
+theorem C12_tc_complete {pkts : List Pkt} {us : Bool} {seen : SeenMap} {qa : QA}
+    (h : asyncResponse pkts us seen = some qa) {p : Pkt} (hp : p ∈ pkts) {it : QItem} (hit : it ∈ p.items)
+    (r : RecId) (hr : r ∈ (answerSet (unionKnown pkts) it).keys) :
+    r ∈ qa.ucast.keys ∨ r ∈ qa.mcastNow.keys ∨ r ∈ qa.mcastAgg.keys ∨ r ∈ qa.mcastLast.keys := by
+  obtain ⟨first, last, _, _, rfl⟩ := asyncResponse_eq h
+  obtain ⟨k1, k2, k3, k4⟩ := answers_keys
+    (List.foldl (fun (qr : QR) it => qr.route us (pkts.any (·.isProbe)) seen last.now first.nq first.q0type it.qu
+      (answerSet (unionKnown pkts) it)) {} (pkts.flatMap (·.items)))
+  rw [k1, k2, k3, k4]
+  exact foldl_establish
+    (fun (qr : QR) it => qr.route us (pkts.any (·.isProbe)) seen last.now first.nq first.q0type it.qu (answerSet (unionKnown pkts) it))
+    (fun qr => qr.mem r)
+    (fun a b hq => by
+      obtain ⟨m1, m2, m3, m4⟩ := route_mono us (pkts.any (·.isProbe)) seen last.now first.nq first.q0type a b.qu (answerSet (unionKnown pkts) b) r
+      rcases hq with hq | hq | hq | hq
+      · exact Or.inl (m1 hq)
+      · exact Or.inr (Or.inl (m2 hq))
+      · exact Or.inr (Or.inr (Or.inl (m3 hq)))
+      · exact Or.inr (Or.inr (Or.inr (m4 hq))))
+    (fun a => route_covers us _ seen last.now first.nq first.q0type a it.qu _ r hr) _ {} (List.mem_flatMap.mpr ⟨p, hp, hit⟩)
+
+/-- an unsuppressed candidate is one the union does not suppress -/
+theorem C12_answerSet_complete (known : List (RecId × Nat)) (it : QItem) (c : Cand) (hc : c ∈ it.cands) (hs : suppresses known c = false) :
+    c.id ∈ (answerSet known it).keys := by
+  unfold answerSet
+  have key : ∀ (l : List Cand) (d : Dict), c ∈ l → c.id ∈ (l.foldl (fun d c => d.set c.id c.adds) d).keys := by
+    intro l
+    induction l with
+    | nil => intro d h; cases h
+    | cons x l ih =>
+      intro d h
+      simp only [List.foldl_cons]
+      rcases List.mem_cons.mp h with rfl | h
+      · have keep : ∀ (l : List Cand) (d : Dict), c.id ∈ d.keys → c.id ∈ (l.foldl (fun d c => d.set c.id c.adds) d).keys := by
+          intro l
+          induction l with
+          | nil => intro d h; exact h
+          | cons y l ih2 => intro d h; exact ih2 _ ((Dict.keys_set _ _ _ _).mpr (Or.inl h))
+        exact keep l _ ((Dict.keys_set _ _ _ _).mpr (Or.inr rfl))
+      · exact ih _ h
+  exact key _ _ (List.mem_filter.mpr ⟨hc, by simp [hs]⟩)
+
 /-- what "suppresses" means: the record is one the known answers can suppress at all and the *last*
 known answer equal to it carries more than half its TTL -/
 theorem C12_suppresses_iff (known : List (RecId × Nat)) (c : Cand) :
@@ -330,7 +528,21 @@ theorem C12_suppresses_iff (known : List (RecId × Nat)) (c : Cand) :
   | none => simp
   | some k => simp [GenFacts.rrset_suppresses]
 
-/-! ## non-vacuity: a concrete legal run in which both branches (merge, wait-for-send_before) occur -/
+/-! ## non-vacuity: concrete legal runs (`heldRun` above takes the merge branch of `async_add` on the protected queue; the run
+below appends a second group, so `async_ready` first waits for the head's `send_before` and then sends both groups in one batch) -/
+
+example : Run outQP {} 0 [.add 0 0 20 [(1, [2])], .add 10 10 120 [(3, [])], .fire 20, .fire 500] {} 500 [(500, [(1, [2]), (3, [])])] := by
+  refine Run.cons (e := .add 0 0 20 [(1, [2])]) ?_ (Run.cons (e := .add 10 10 120 [(3, [])]) ?_
+    (Run.cons (e := .fire 20) ?_ (Run.cons (e := .fire 500) ?_ (Run.nil _ _))))
+  · refine ⟨by decide, by decide, by decide, by decide, ?_⟩
+    intro d hd; cases hd
+  · refine ⟨by decide, by decide, by decide, by decide, ?_⟩
+    intro d hd
+    have h2 : some (20 : Int) = some d := hd
+    cases h2; decide
+  · exact ⟨by decide, by decide⟩
+  · exact ⟨by decide, by decide⟩
+
 
 example : Run outQP {} 0 [.add 0 0 20 [(1, [2])], .fire 20] {} 20 [(20, [(1, [2])])] := by
   refine Run.cons (e := .add 0 0 20 [(1, [2])]) ?_ (Run.cons (e := .fire 20) ?_ (Run.nil _ _))
